@@ -23,13 +23,15 @@ def _cfg_variants(rng, fmt):
         from picosvg.svg_transform import Affine2D
 
         # user transforms that keep circles circular (OT-SVG rejects the others for radial
-        # gradients, which the property allows): translation, uniform scale, mirror
+        # gradients, which the property allows): translation, uniform scale, mirror, rotation
         v["transform"] = rng.choice(
             [
                 Affine2D(1, 0, 0, 1, 40, -25),
                 Affine2D(0.8, 0, 0, 0.8, 0, 0),
                 Affine2D(-1, 0, 0, 1, 1000, 0),
                 Affine2D(1, 0, 0, -1, 0, 700),
+                Affine2D(0.8660254037844387, 0.5, -0.5, 0.8660254037844387, 150, -200),
+                Affine2D(0, 0.9, -0.9, 0, 900, 0),
             ]
         )
     return v
@@ -336,10 +338,12 @@ def _add_same_gradient_in_other_documents(rng, glyphs):
 
 def _gen_otsvg(rng, i=None):
     # cases 0..5 of every 8 hold one fixed scenario each (on a picosvg build); the rest is random
-    forced = {0: "donor-same", 1: "donor-cross", 2: "grad-docs", 3: "sibling", 4: "prefix", 5: "notdef-source", 6: "dotted-names"}.get(i % 8) if i is not None else None
+    forced = {0: "donor-same", 1: "donor-cross", 2: "grad-docs", 3: "sibling", 4: "prefix", 5: "notdef-source", 6: "dotted-names", 7: "glyph-ids-in-source"}.get(i % 8) if i is not None else None
     fmt = rng.choice(["picosvg", "picosvg", "picosvgz", "untouchedsvg", "untouchedsvgz"])
     if forced == "notdef-source":
         fmt = rng.choice(["untouchedsvg", "picosvg", "untouchedsvgz"])
+    elif forced == "glyph-ids-in-source":
+        fmt = rng.choice(["untouchedsvg", "untouchedsvgz", "untouchedsvg", "picosvg"])
     elif forced:
         fmt = rng.choice(["picosvg", "picosvg", "picosvgz"])
     over_ = _cfg_variants(rng, fmt)
@@ -354,6 +358,14 @@ def _gen_otsvg(rng, i=None):
         _add_default_paint_donor(rng, glyphs)
     if forced == "grad-docs" or rng.random() < 0.15:
         _add_same_gradient_in_other_documents(rng, glyphs)
+    if forced == "glyph-ids-in-source":
+        # sources extracted from an OT-SVG font (or drawn Adobe-style) carry id="glyph<N>" on
+        # their root; the colour glyphs of this build are glyphs 2, 3, ... (after .notdef, .space)
+        # (which glyph id a source gets is only known after the build: the root carries one
+        # candidate, empty groups carry the others)
+        for k, g_ in enumerate(glyphs):
+            g_.root_id = f"glyph{2 + k}"
+            g_.extra_ids = [f"glyph{n_}" for n_ in range(2, 10) if n_ != 2 + k]
     if forced == "notdef-source":
         # artwork for .notdef (a source mapped to the glyph name .notdef by the glyph map),
         # not the first input
@@ -584,6 +596,88 @@ class e2e_colr_to_svg:
     ensures = {
         "svg-renders-what-the-paint-graph-renders": lambda glyphs, result: _colr_to_svg_mismatch(glyphs, result) == [],
     }
+
+
+def _gen_mixed_records(rng):
+    """solid, opaque, un-reused COLRv1 glyphs; the first one is then stored as a v0-style
+    record (BaseGlyphRecord + LayerRecords) inside the version 1 table -- what
+    fontTools.colorLib.buildCOLR(version=None), ufo2ft and fontmake write for plainly layered
+    glyphs"""
+    glyphs = e2e.gen_glyphset(rng, n_glyphs=rng.randint(2, 3), gradients=False, groups=False, reuse=False)
+    for g in glyphs:
+        for sh in e2e.all_shapes(g):
+            sh.opacity = 1.0
+            sh.fill.alpha = 1.0
+            sh.fill.index = None
+            if getattr(sh.fill, "current", False):
+                sh.fill = e2e.Solid((10, 20, 30), 1.0)
+    return {"glyphs": glyphs, "overrides": dict(color_format="glyf_colr_1", output_file="out.ttf", reuse_tolerance=-1)}
+
+
+def _build_with_v0_records(glyphs, overrides):
+    from fontTools.ttLib.tables import otTables as ot
+    from fontTools import ttLib
+    import io
+
+    r = _build(glyphs, overrides)
+    font = r["font"]
+    table = font["COLR"].table
+    target = _name(glyphs[0])
+    rec = [x for x in table.BaseGlyphList.BaseGlyphPaintRecord if x.BaseGlyph == target][0]
+    leaves = []
+
+    def walk(p):
+        if p.Format == ot.PaintFormat.PaintColrLayers:
+            for q in table.LayerList.Paint[p.FirstLayerIndex : p.FirstLayerIndex + p.NumLayers]:
+                walk(q)
+        elif p.Format == ot.PaintFormat.PaintGlyph and p.Paint.Format == ot.PaintFormat.PaintSolid:
+            leaves.append((p.Glyph, p.Paint.PaletteIndex))
+        else:
+            raise AssertionError(f"unexpected paint format {p.Format} in a solid, un-reused glyph")
+
+    walk(rec.Paint)
+    table.BaseGlyphList.BaseGlyphPaintRecord.remove(rec)
+    table.BaseGlyphList.BaseGlyphCount = len(table.BaseGlyphList.BaseGlyphPaintRecord)
+    table.BaseGlyphRecordArray = ot.BaseGlyphRecordArray()
+    b = ot.BaseGlyphRecord()
+    b.BaseGlyph, b.FirstLayerIndex, b.NumLayers = target, 0, len(leaves)
+    table.BaseGlyphRecordArray.BaseGlyphRecord = [b]
+    table.BaseGlyphRecordCount = 1
+    table.LayerRecordArray = ot.LayerRecordArray()
+    table.LayerRecordArray.LayerRecord = []
+    for gname, idx in leaves:
+        l = ot.LayerRecord()
+        l.LayerGlyph, l.PaletteIndex = gname, idx
+        table.LayerRecordArray.LayerRecord.append(l)
+    table.LayerRecordCount = len(leaves)
+    if getattr(table, "ClipList", None) and target in table.ClipList.clips:
+        del table.ClipList.clips[target]
+    buf = io.BytesIO()
+    font.save(buf)
+    r["font"] = ttLib.TTFont(io.BytesIO(buf.getvalue()), lazy=False)
+    return r
+
+
+@contract("nanoemoji.colr_to_svg.colr_to_svg", props=["C13", "C12"])
+class e2e_colr_to_svg_v0_records_in_v1_table:
+    bounded_only = True
+    gen = _gen_mixed_records
+    native_call = _build_with_v0_records
+    n_quick = 10
+    n_thorough = 100
+    ensures = {
+        # every colour glyph of the font gets its SVG -- also the ones a version 1 table
+        # stores as v0-style layer records -- and colr_glyphs lists it
+        "svg-renders-what-the-paint-graph-renders": lambda glyphs, result: _colr_to_svg_mismatch(glyphs, result) == [],
+        "listed-as-colour-glyph": lambda glyphs, result: _listed(glyphs, result),
+    }
+
+
+def _listed(glyphs, result):
+    from nanoemoji import colr_to_svg
+
+    font = result["font"]
+    return {font.getGlyphName(i) for i in colr_to_svg.colr_glyphs(font)} >= {_name(g) for g in glyphs if list(e2e.all_shapes(g))}
 
 
 def _gen_colr_glyph_refs(rng, i=0):
